@@ -47,7 +47,24 @@ func genC13(t *rapid.T) c13Case {
 		for j := 0; j < np; j++ {
 			ps = append(ps, rapid.SampledFrom(c13Prefixes).Draw(t, "prefix"))
 		}
-		c.Cfg.Secrets = append(c.Cfg.Secrets, cfggen.NewSecret(fmt.Sprintf("s%d", i), fmt.Sprintf("key-%d", i), ps...))
+		sec := cfggen.NewSecret(fmt.Sprintf("s%d", i), fmt.Sprintf("key-%d", i), ps...)
+		// a secret configuration the reference server cannot serve (provider or handler type it does
+		// not register, no usable prefix list) is passed over, whatever its prefixes say
+		switch rapid.IntRange(0, 15).Draw(t, "odd_scope") {
+		case 0:
+			sec.Type = cfggen.ProviderDNS
+		case 1:
+			sec.Handler.Type = cfggen.HandlerSpan
+		case 2:
+			sec.Options["prefixes"] = "[]"
+			sec.Prefixes = nil
+		case 3:
+			sec.Options["prefixes"] = "not json"
+			sec.Prefixes = nil
+		case 4:
+			sec.SetPrefixes(append([]string{"not-a-prefix", "10.1.2.3"}, ps...))
+		}
+		c.Cfg.Secrets = append(c.Cfg.Secrets, sec)
 	}
 	nu := rapid.IntRange(1, 5).Draw(t, "nusers")
 	for i := 0; i < nu; i++ {
@@ -90,7 +107,7 @@ func genC13(t *rapid.T) c13Case {
 	np := rapid.IntRange(1, 6).Draw(t, "nprobes")
 	for i := 0; i < np; i++ {
 		var a cfggen.Addr
-		if rapid.IntRange(0, 4).Draw(t, "probe_kind") == 0 {
+		if len(all) == 0 || rapid.IntRange(0, 4).Draw(t, "probe_kind") == 0 {
 			a = cfggen.Addr(rapid.SampledFrom([][]byte{{10, 1, 2, 3}, {10, 200, 0, 1}, {192, 168, 1, 1}, {8, 8, 8, 8}, net.ParseIP("2001:db8:1:2::9").To16(), net.ParseIP("::1").To16(), net.ParseIP("fe80::1").To16(), net.ParseIP("2600::1").To16()}).Draw(t, "fixed_addr"))
 		} else {
 			p, ok := cfggen.ParsePrefix(rapid.SampledFrom(all).Draw(t, "probe_prefix"))
